@@ -408,6 +408,7 @@ func (p *Program) lookupFunc(pkg, name string) *ssa.Function {
 type deriveOpts struct {
 	throughCalls func(c *ssa.Call) bool // follow a call's arguments
 	throughBinOp bool
+	argsOnly     bool // with throughCalls: do not follow the receiver of interface calls
 	maxDepth     int
 }
 
@@ -534,7 +535,7 @@ func derives(v ssa.Value, pred func(ssa.Value) bool, o *deriveOpts) bool {
 						return true
 					}
 				}
-				if x.Call.IsInvoke() && rec(x.Call.Value, d+1) {
+				if x.Call.IsInvoke() && !o.argsOnly && rec(x.Call.Value, d+1) {
 					return true
 				}
 			}
